@@ -45,7 +45,7 @@ def failure_class(p, work, target="native"):
     if mv in ("undef", "fuel", "model-rejects", "stuck"): return None
     return "diff" if (mv == "diff" or obs is None) else None
 
-def shrink_failure(p, work, cls, max_tests=40, target="native"):
+def shrink_failure(p, work, cls, max_tests=16, target="native"):
     try:
         q = core.shrink(p, lambda c: failure_class(c, work, target) == cls, max_tests=max_tests)
         return core.to_ferret(q)
@@ -186,7 +186,7 @@ def main(run):
     results = compile_run_all(progs, work)
     nshrunk = [0]
     def shrunk(p, cls):
-        if nshrunk[0] >= 2: return None
+        if nshrunk[0] >= 1: return None      # one shrunk replay per run: each candidate costs a compile, a run and a coqc evaluation
         nshrunk[0] += 1
         return shrink_failure(p, work, cls)
     observed = []
